@@ -24,3 +24,5 @@ def run(ctx):
     txn.effects_use_callers_txn(ctx, s, "pocket_db::Store::store_event")
     lossy_rechecks(ctx, s)
     marker_key_exact(ctx, s)
+    from . import tables
+    tables.mirror(ctx, s)
